@@ -172,18 +172,26 @@ def r1(rep, prog):
     # sites are keyed by the function they are written in (closures folded into it: a site that moves between a loop
     # body and the closure of an iterator adaptor is the same site)
     from ..panics import root_fn
+    def fate_class(f):
+        # `x.unwrap_or_else(|e| ..)`, `x.ok()`, `if let Err(e) = x { log }`, `match x { Err(e) => default, .. }`: spellings of
+        # "the error is looked at and the operation goes on"
+        return "swallowed" if f.startswith("swallowed:") or f == "err-arm-continues" else f
     seen_f, sites_f = Counter(), defaultdict(list)
     for (fid, callee, fate), n in seen.items():
-        k2 = (root_fn(fid), callee, fate)
+        k2 = (root_fn(fid), callee, fate_class(fate))
         seen_f[k2] += n
         sites_f[k2].extend(sites[(fid, callee, fate)])
     seen, sites = seen_f, sites_f
     FATE_TABLE, ONLY_IN = {}, {}
     for (fid, callee, fate), (cnt, why) in FATE_TABLE_.items():
-        k2 = (root_fn(fid), callee, fate)
-        FATE_TABLE[k2] = (FATE_TABLE[k2][0] + cnt, FATE_TABLE[k2][1] + "; " + why) if k2 in FATE_TABLE else (cnt, why)
-        if (fid, callee, fate) in ONLY_IN_:
-            ONLY_IN[k2] = ONLY_IN_[(fid, callee, fate)]
+        fids = [root_fn(fid)]
+        if fids[0] not in prog.bodies and fids[0] in prog.gone:
+            fids = [root_fn(c) for c in prog.gone[fids[0]]]     # inlined into its former callers and deleted
+        for f_ in fids:
+            k2 = (f_, callee, fate_class(fate))
+            FATE_TABLE[k2] = (FATE_TABLE[k2][0] + cnt, FATE_TABLE[k2][1] + "; " + why) if k2 in FATE_TABLE else (cnt, why)
+            if (fid, callee, fate) in ONLY_IN_:
+                ONLY_IN[k2] = ONLY_IN_[(fid, callee, fate)]
     for k, n in sorted(seen.items()):
         fid, callee, fate = k
         key = "%s: %s of %s" % (short(fid), fate, short(callee))
@@ -192,13 +200,14 @@ def r1(rep, prog):
             rep.check(n <= cnt, R, key, "permitted (%d site(s)): %s" % (n, why),
                       "%d site(s) where the table permits %d: a new %s of a storage Result in `%s`" % (n, cnt, fate, fid), site=sites[k][0])
         else:
-            how = "inspected, but its Err arm goes on to a non-error exit (the error is only logged or replaced by a default and the operation continues)" if fate == "err-arm-continues" else fate.replace(":", " by ")
+            how = "inspected or adapted, but the operation goes on after an Err (the error is only logged or replaced by a default: unwrap_or*, ok(), is_err(), or a match / if-let whose Err arm reaches a non-error exit)" if fate == "swallowed" else fate.replace(":", " by ")
             rep.fail(R, key, "the Result of `%s` (storage error) is %s instead of being propagated" % (callee, how), site=sites[k][0])
     for k in FATE_TABLE:
         if k in ONLY_IN and prog.config not in ONLY_IN[k]:
             continue
         if k not in seen:
-            rep.fail(R, "stale table entry %s / %s / %s" % (short(k[0]), short(k[1]), k[2]), "the permitted site no longer exists: the table must be re-confirmed")
+            rep.stale(R, "%s / %s / %s" % (short(k[0]), short(k[1]), k[2]), FATE_TABLE[k][1])
+    rep.stale_floor(R, "permitted storage-error fates", len(FATE_TABLE))
     # flow-sensitive companion: a storage Result kept in a local must not be overwritten unread
     OVERWRITE_OK = {
         "tantivy::directory::mmap_directory::file_watcher::FileWatcher::spawn::{closure#0}":
@@ -215,7 +224,7 @@ def r1(rep, prog):
                      site=site(body, b))
     for k in OVERWRITE_OK:
         if k not in {body.id for body, _, _ in ow}:
-            rep.fail(R, "stale overwrite entry %s" % short(k), "the permitted reassigned-Result site no longer exists: re-confirm")
+            rep.stale(R, "overwrite %s" % short(k), OVERWRITE_OK[k])
     rep.extra["fate_counts"] = dict(fc)
     rep.extra["scope_bodies"] = len(scope)
     rep.sample({"rule": R, "scope_bodies": len(scope), "storage_error_call_sites": len(res), "fates": dict(fc)})
@@ -286,8 +295,9 @@ def r3(rep, prog):
                 tr = trace_through(body, place_local(pl))
                 if not any(s[0] == "call" and len(s) > 2 and s[2] == jb for s in tr):
                     continue
-                if "Result" not in body.local_ty_str(place_local(pl)):
-                    continue
+                lt = body.local_ty(place_local(pl))
+                if not (lt["k"] == "adt" and lt.get("def") == "core::result::Result"):
+                    continue        # e.g. the ControlFlow a `?` switches on: counted above
                 err_arm = next((tb for v, tb in sw["vals"] if v == "1"), sw.get("else"))
                 if err_arm is None:
                     continue
@@ -473,7 +483,14 @@ def publish_only_alive(rep, prog, R):
     b = get_body(rep, prog, R, fid)
     if b is None:
         return
-    pubs = [(bi, t) for bi, t in b.calls() if (t.get("res") or t.get("f") or "") == SU + "save_metas"]
+    # the write is a call into the publisher of meta.json (the function holding the atomic_write(META_FILEPATH), or a
+    # wrapper that always reaches it) or, when the publisher was written / inlined into this function, that atomic_write
+    from .c01 import meta_publishers
+    from ..rules import must_closure
+    mp = meta_publishers(prog)
+    PC = set(mp) | must_closure(prog, set(mp))
+    pubs = [(bi, t) for bi, t in b.calls() if (t.get("res") or t.get("f") or "") in PC]
+    pubs += [(bi, b.term(bi)) for bi in mp.get(fid, [])]
     if not rep.check(len(pubs) >= 1, R, "SegmentUpdater::save_metas writes meta.json through save_metas()", "%d call(s)" % len(pubs), "cannot establish: the free function save_metas is not called from SegmentUpdater::save_metas", site=b.span):
         return
     for bi, t in pubs:
